@@ -90,6 +90,23 @@ def run(P, C, tier):
             if sends and cs:
                 ok = all(b.must_pass(s, cs, b.exits()) for s in sends)
                 C.ob("R1", "GraphDatabaseService::mutation_stream", ok, b.loc(cs[0]), "after the stream is closed a recomputation is requested on every path from a forwarded mutation to the task's end")
+                # ordering: the request must come after the writes were acknowledged, otherwise the writer can run the
+                # recomputation before the streamed mutations are written and nothing recomputes (announces) them later
+                acked = False
+                for c in cs:
+                    for sg, vals, term in b.guards(c, expand_vars=True):
+                        if mir.has_call(term, r"(oneshot::Receiver|mpsc::.*Receiver).*::recv$") is not None and "send_res" in term_str(term):
+                            acked = True
+                    for rb, rt in b.live_calls(awaits=True):
+                        nme = callee_name(rt)
+                        if ("Receiver" in nme and nme.endswith("::recv") or nme.endswith("oneshot::Receiver::poll")) and b.dominates(rb, c):
+                            a0 = term_str(b.call_args(rb, expand_vars=True)[0])
+                            if "send_res" in a0 or "reply" in a0 or "receive" in a0:
+                                acked = True
+                C.ob("R1", "GraphDatabaseService::mutation_stream:ordered-after-write", acked, b.loc(cs[0]),
+                     "the recomputation request of a closed stream is sent as soon as the last mutation was *forwarded* to the database actor; it is not ordered after the "
+                     "acknowledgement of the writes (mutate_raw/delete await the reply first), so the writer can execute ComputeDailyLog before the streamed mutations are "
+                     "written: their days stay marked and no data-changed event follows until an unrelated later write")
         if not ms:
             C.anchor_missing("R1", "mutation_stream", "no coroutine")
     except mir.MissingAnchor as e:
